@@ -569,6 +569,15 @@ def run_waiters(what, nwait, layout, ops, mode):
                 yield beats
                 t1 = main.current_tt._seconds
                 log.append(('woke', i, nth, abs((t1 - t0) - SLEEP) < 1e-9))
+        if i % 2 == 1:
+            # every second waiter is a NESTED routine: an outer routine played
+            # on the clock drives it with `yield from embed(inner)`; it must be
+            # resumed through its caller, exactly like a directly played one
+            inner = S.Routine(body)
+
+            def outer():
+                yield from S.embed(inner)
+            return S.Routine(outer)
         return S.Routine(body)
 
     # ---- the reference: a small discrete-event model ----------------------
